@@ -957,6 +957,15 @@ class TransferManager(BaseManager):
         else:
             logger.debug("received offset for transfer : %d : %s", transfer.bytes_transfered, transfer)
 
+        # The offset is chosen by the other peer: there is nothing to upload if
+        # it lies beyond the end of the file
+        if transfer.filesize is not None and transfer.bytes_transfered > transfer.filesize:
+            logger.warning(
+                "received transfer offset beyond the filesize : %d : %s", transfer.bytes_transfered, transfer)
+            await connection.disconnect(CloseReason.REQUESTED)
+            await transfer.state.fail()
+            return
+
         await self._upload_file(transfer, connection)
 
         # Send transfer speed
